@@ -11,6 +11,13 @@ import OFV.Proofs.C13
 import OFV.Proofs.C13Shape
 import OFV.Proofs.C13Grid
 import OFV.Proofs.C13Diag
+import OFV.Proofs.C13Sound
+import OFV.Proofs.C13Herm
+import OFV.Proofs.C13Sound2
+import OFV.Proofs.C13RG
+import OFV.Proofs.C13Mel
+import OFV.Proofs.C13Bose
+import Mathlib.Tactic.NormNum
 
 namespace OFV.C13
 open OFV.Model OFV.Model.C13 OFV.Spec OFV.Spec.C13 OFV.Model.C13.Lattice
@@ -161,6 +168,128 @@ theorem mean_field_dwave_conserves_sz (tol : Rat) (a : HubbardArgs) :
 theorem fermi_hubbard_model_conserves_number (tol : Rat) (m : FHM) :
     Conserves (fun _ => 1) (m.hamiltonian tol) :=
   conserves_fhm m (fun _ _ => rfl)
+
+/-! ### operator-level soundness (dictionary semantics `den φ A = Σ c · φ τ` of C01)
+
+`ExactSum tol [] pieces`: every `+=` of the site loop is in the exact regime (an intermediate coefficient is
+negligible only if it is zero) — it holds for the dyadic couplings the harness generates. -/
+
+/-- the site loop of `_spinless_fermi_hubbard_model` is the left fold of `+=` over the per-site pieces -/
+theorem spinless_fermi_hubbard_is_fold (tol : Rat) (a : HubbardArgs) :
+    spinlessFermiHubbard tol a = sumOps tol ((List.range (a.x * a.y)).flatMap (spinlessPieces tol a)) [] :=
+  spinless_eq_sumOps tol a
+
+/-- **hubbard_sound** (spinless `fermi_hubbard`; all lattice sizes, both boundary conditions, particle-hole flag
+allowed): for every term functional `φ` whose bond contribution is orientation independent, the Model's output
+denotes the sum over the *Spec edge set* of (hopping + repulsion) plus the chemical-potential terms -/
+theorem spinless_hubbard_sound_edges (tol : Rat) (φ : Term → GQ) (a : HubbardArgs)
+    (hex : ExactSum tol [] ((List.range (a.x * a.y)).flatMap (spinlessPieces tol a)))
+    (hsym : ∀ i j, bondDen tol φ a (i, j) = bondDen tol φ a (j, i)) :
+    den φ (spinlessFermiHubbard tol a) =
+      gsumL ((edges adjNN a.x a.y a.periodic).map (bondDen tol φ a)) +
+      gsumL ((List.range (a.x * a.y)).map fun s => den φ (numberOp .fermion s (-a.mu))) :=
+  spinless_den_spec_edges tol φ a hex hsym
+
+/-- **hubbard_sound, docstring form**: `H = -t Σ_⟨ij⟩ (a†_i a_j + a†_j a_i) + U Σ_⟨ij⟩ n_i n_j - μ Σ_i n_i` over the Spec
+edge set, for a real hopping amplitude and every `φ` with `φ(n_i n_j) = φ(n_j n_i)` (every matrix element) -/
+theorem spinless_hubbard_sound (tol : Rat) (φ : Term → GQ) (a : HubbardArgs) (hphs : a.phs = false)
+    (hex : ExactSum tol [] ((List.range (a.x * a.y)).flatMap (spinlessPieces tol a)))
+    (ht : a.t.conj = a.t) (hreg : GQ.isSmall tol (-a.t) = true → -a.t = 0)
+    (hφ : ∀ i j, φ [(i, 1), (i, 0), (j, 1), (j, 0)] = φ [(j, 1), (j, 0), (i, 1), (i, 0)]) :
+    den φ (spinlessFermiHubbard tol a) =
+      gsumL ((edges adjNN a.x a.y a.periodic).map fun e =>
+        (-a.t) * φ [(e.1, 1), (e.2, 0)] + (-a.t) * φ [(e.2, 1), (e.1, 0)] + a.u * φ [(e.1, 1), (e.1, 0), (e.2, 1), (e.2, 0)]) +
+      gsumL ((List.range (a.x * a.y)).map fun s => (-a.mu) * φ [(s, 1), (s, 0)]) :=
+  spinless_hubbard_sound' tol φ a hphs hex ht hreg hφ
+
+/-- **hubbard_sound (spinful `fermi_hubbard`)**: every lattice size, both boundary conditions, any particle-hole flag and
+magnetic field, real hopping amplitude; for EVERY term functional `φ` (no symmetry assumption) the Model's output
+denotes `-t Σ_{⟨i,j⟩ ∈ Spec edges} Σ_σ (a†_{iσ} a_{jσ} + a†_{jσ} a_{iσ})` plus the on-site terms of every site
+(`spin_site_terms` makes them explicit) -/
+theorem spinful_hubbard_sound (tol : Rat) (φ : Term → GQ) (a : HubbardArgs)
+    (hex : ExactSum tol [] ((List.range (a.x * a.y)).flatMap (spinfulPieces tol a)))
+    (ht : a.t.conj = a.t) (hreg : GQ.isSmall tol (-a.t) = true → -a.t = 0) :
+    den φ (spinfulFermiHubbard tol a) =
+      gsumL ((edges adjNN a.x a.y a.periodic).map fun e =>
+        ((-a.t) * φ [(2 * e.1, 1), (2 * e.2, 0)] + (-a.t) * φ [(2 * e.2, 1), (2 * e.1, 0)]) +
+        ((-a.t) * φ [(2 * e.1 + 1, 1), (2 * e.2 + 1, 0)] + (-a.t) * φ [(2 * e.2 + 1, 1), (2 * e.1 + 1, 0)])) +
+      gsumL ((List.range (a.x * a.y)).map (spinSiteDen tol φ a)) :=
+  spinful_hubbard_sound' tol φ a hex ht hreg
+
+/-- on-site terms of the spinful model: `U n_{i↑} n_{i↓} + (-μ-h) n_{i↑} + (-μ+h) n_{i↓}` -/
+theorem spin_site_terms (tol : Rat) (φ : Term → GQ) (a : HubbardArgs) (hphs : a.phs = false) (s : Nat) :
+    spinSiteDen tol φ a s =
+      a.u * φ [(2 * s, 1), (2 * s, 0), (2 * s + 1, 1), (2 * s + 1, 0)] +
+      ((-a.mu - a.h) * φ [(2 * s, 1), (2 * s, 0)] + (-a.mu + a.h) * φ [(2 * s + 1, 1), (2 * s + 1, 0)]) :=
+  spinSiteDen_explicit tol φ a hphs s
+
+/-- **hermitian_generators** (spinless `fermi_hubbard`; real `t`, `U`, `μ`; every lattice size, both boundary
+conditions): with `φ†(τ) = conj φ(τ†)` (for `φ τ = ⟨t|τ|s⟩` this is `⟨s|τ|t⟩*`), the Model's output satisfies
+`⟦H⟧_{φ†} = conj ⟦H⟧_φ`, i.e. `⟨t|H|s⟩ = ⟨s|H|t⟩*` -/
+theorem spinless_hubbard_hermitian (tol : Rat) (φ : Term → GQ) (a : HubbardArgs) (hphs : a.phs = false)
+    (hex : ExactSum tol [] ((List.range (a.x * a.y)).flatMap (spinlessPieces tol a)))
+    (ht : a.t.conj = a.t) (hu : a.u.conj = a.u) (hmu : a.mu.conj = a.mu)
+    (hreg : GQ.isSmall tol (-a.t) = true → -a.t = 0)
+    (hφ : ∀ i j, φ [(i, 1), (i, 0), (j, 1), (j, 0)] = φ [(j, 1), (j, 0), (i, 1), (i, 0)]) :
+    den (adjF φ) (spinlessFermiHubbard tol a) = (den φ (spinlessFermiHubbard tol a)).conj :=
+  spinless_hubbard_hermitian' tol φ a hphs hex ht hu hmu hreg hφ
+
+/-- in the Spec, number operators on different modes commute: `n_i n_j` and `n_j n_i` act identically on every basis
+state (from the CAR lemmas of SpecCAR) -/
+theorem spec_number_operators_commute (i j s : Nat) (hij : i ≠ j) :
+    actFTerm [(i, 1), (i, 0), (j, 1), (j, 0)] s = actFTerm [(j, 1), (j, 0), (i, 1), (i, 0)] s :=
+  actFTerm_nn_comm i j s hij
+
+/-- **hubbard_sound against the Spec** (spinless `fermi_hubbard`; every lattice size, both boundary conditions; real
+hopping amplitude; exact regime): every matrix element `⟨t| H |s⟩` of the Model's output, computed with the Spec action
+`actFTerm`, is the matrix element of `-t Σ_⟨ij⟩ (a†_i a_j + a†_j a_i) + U Σ_⟨ij⟩ n_i n_j - μ Σ_i n_i` over the Spec
+edge set — no hypothesis on the functional is left -/
+theorem spinless_hubbard_sound_spec (tol : Rat) (s t : Nat) (a : HubbardArgs) (hphs : a.phs = false)
+    (hex : ExactSum tol [] ((List.range (a.x * a.y)).flatMap (spinlessPieces tol a)))
+    (ht : a.t.conj = a.t) (hreg : GQ.isSmall tol (-a.t) = true → -a.t = 0) :
+    den (mel s t) (spinlessFermiHubbard tol a) =
+      gsumL ((edges adjNN a.x a.y a.periodic).map fun e =>
+        (-a.t) * mel s t [(e.1, 1), (e.2, 0)] + (-a.t) * mel s t [(e.2, 1), (e.1, 0)] +
+          a.u * mel s t [(e.1, 1), (e.1, 0), (e.2, 1), (e.2, 0)]) +
+      gsumL ((List.range (a.x * a.y)).map fun i => (-a.mu) * mel s t [(i, 1), (i, 0)]) :=
+  spinless_hubbard_sound_mel tol s t a hphs hex ht hreg
+
+/-- **hubbard_sound (`bose_hubbard`)**: every lattice size, both boundary conditions, real hopping amplitude, EVERY term
+functional `φ`: the Model's output denotes `-t Σ_⟨ij⟩ (b†_i b_j + b†_j b_i) + V Σ_⟨ij⟩ n_i n_j` over the Spec edge set
+(keys as BosonOperator stores them, `hopKey` / `nnKey`) plus the on-site `U/2 n(n-1) - μ n` terms of every site -/
+theorem bose_hubbard_sound (tol : Rat) (φ : Term → GQ) (a : HubbardArgs)
+    (hex : ExactSum tol [] ((List.range (a.x * a.y)).flatMap (bosePieces tol a)))
+    (ht : a.t.conj = a.t) (hreg : GQ.isSmall tol (-a.t) = true → -a.t = 0) :
+    den φ (boseHubbard tol a) =
+      gsumL ((edges adjNN a.x a.y a.periodic).map fun e =>
+        ((-a.t) * φ (hopKey e.1 e.2) + (-a.t) * φ (hopKey e.2 e.1)) + a.h * φ (nnKey e.1 e.2)) +
+      gsumL ((List.range (a.x * a.y)).map (boseSiteDen tol φ a)) :=
+  bose_hubbard_sound' tol φ a hex ht hreg
+
+/-- **RichardsonGaudin, documented form** (every `n`, every `g`): in the exact regime (`ExactRG`: every `+` / `sum` step
+of `qubit_operator`) the Model's `RichardsonGaudin(g, n).qubit_operator` denotes
+`(Σ_p hc_p / 2)·1 + Σ_p (-(p + 1)) Z_p + (g/2) Σ_{p<q} (X_p X_q + Y_p Y_q)` with `hc_p = 2 (p + 1)` — the
+DOCIHamiltonian form with `hr1 = g`, `hr2 = 0` (the `Z_p Z_q` terms vanish) -/
+theorem richardson_gaudin_documented (tol : Rat) (φ : Term → GQ) (m : RG) (h : ExactRG tol m) :
+    denOpt φ (m.qubitOperator tol) =
+      (gsum ((List.range m.n).map m.hc) * half) * φ [] +
+      gsumL ((List.range m.n).map fun p => (-(natGQ (p + 1))) * φ [(p, 3)]) +
+      gsumL ((pairsLt m.n).map fun pq => (m.g * half) * φ [(pq.1, 1), (pq.2, 1)] + (m.g * half) * φ [(pq.1, 2), (pq.2, 2)]) :=
+  rg_documented'' tol φ m h
+
+/-- non-vacuity of the exact-regime hypothesis: the 1 × 1 lattice with `μ = 1` -/
+example : ExactSum (1 / 100000000) []
+    ((List.range (1 * 1)).flatMap (spinlessPieces (1 / 100000000) ⟨1, 1, 1, 1, 1, 0, false, false⟩)) := by
+  have h : (List.range (1 * 1)) = [0] := by decide
+  rw [h]
+  simp only [List.flatMap_cons, List.flatMap_nil, List.append_nil, spinlessPieces, siteBonds, siteNeighbors,
+    rightNeighbor, bottomNeighbor]
+  refine ⟨⟨?_, trivial⟩, trivial⟩
+  intro hs
+  exfalso
+  revert hs
+  simp [Dict.getD, Dict.get?, GQ.isSmall, GQ.normSq, simplify]
+  norm_num
 
 /-! ### Grid index arithmetic -/
 
